@@ -159,7 +159,7 @@ pub fn scenarios(prop: &str, thorough: bool) -> Vec<Scenario> {
         }
         "C06" | "C19" => {
             v.extend(held_family(thorough));
-            v.extend(scenarios("C07", thorough).into_iter().filter(|s| s.name.starts_with("Big/") || s.name.starts_with("MC/") || s.name.starts_with("E/") || s.name.starts_with("EE/")));
+            v.extend(scenarios("C07", thorough).into_iter().filter(|s| s.name.starts_with("Big/") || s.name.starts_with("MC/") || s.name.starts_with("MC2/") || s.name.starts_with("E/") || s.name.starts_with("EE/")));
             v.extend(scenarios("C12", thorough).into_iter().filter(|s| s.name.starts_with("RE/")));
             // small scripts, explored with a higher preemption bound
             for pool in [1usize, 2] {
@@ -398,6 +398,43 @@ pub fn scenarios(prop: &str, thorough: bool) -> Vec<Scenario> {
                                     fine: true,
                                     flag_points: false,
                                 });
+                            }
+                        }
+                    }
+                }
+            }
+            // (MC2) two columns, both edited between two ticks (in either order): the status handed
+            // to the run must be the strongest over the columns
+            {
+                let texts: &[&str] = &["", "a", "ab", "b"];
+                for t0 in texts {
+                    for t1 in texts {
+                        for t2 in texts {
+                            for t3 in texts {
+                                if t2 == t0 || t3 == t1 {
+                                    continue;
+                                }
+                                // quick tier: one of the two edits is an append of a non-empty text, the other is not
+                                let app0 = t2.starts_with(*t0) && !t0.is_empty();
+                                let app1 = t3.starts_with(*t1) && !t1.is_empty();
+                                if !thorough && app0 == app1 {
+                                    continue;
+                                }
+                                for first in [0usize, 1] {
+                                    let (e_a, e_b) = if first == 0 { (UOp::Reparse(0, t2), UOp::Reparse(1, t3)) } else { (UOp::Reparse(1, t3), UOp::Reparse(0, t2)) };
+                                    v.push(Scenario {
+                                        name: format!("MC2/{t0:?},{t1:?}>{t2:?},{t3:?}/first{first}"),
+                                        pool_threads: 1,
+                                        columns: 2,
+                                        preload: vec![it(100, "a"), it(101, "ab"), it(102, "ba"), it(103, "b"), it(104, "xab"), it(105, "bxa"), it(106, "c")],
+                                        u: vec![UOp::Reparse(0, t0), UOp::Reparse(1, t1), UOp::Tick, e_a, e_b, UOp::Drain(6)],
+                                        injectors: vec![],
+                                        slots: 0,
+                                        bound: 0,
+                                        fine: true,
+                                        flag_points: false,
+                                    });
+                                }
                             }
                         }
                     }
@@ -711,6 +748,10 @@ pub fn scenarios(prop: &str, thorough: bool) -> Vec<Scenario> {
                 UOp::Restart(false),
                 UOp::PushHandle(0, it(1, "a")),
                 UOp::Tick,
+                // pattern edits: a tick that carries an edit takes the cancelling path, also
+                // together with a pending restart
+                UOp::Reparse(0, "a"),
+                UOp::Reparse(0, ""),
             ];
             let depth = if thorough { 6 } else { 5 };
             let k = ops.len() as u64;
